@@ -916,11 +916,14 @@ func fpIdx(w int) (int, int) {
 var RNE = intern("const", mkSort(&Sort{K: KBool + 100, S: "RoundingMode"}), "RNE", nil)
 var RTZ = intern("const", RNE.Sort, "RTZ", nil)
 var RTN = intern("const", RNE.Sort, "RTN", nil)
+var RTP = intern("const", RNE.Sort, "RTP", nil)
+var RNA = intern("const", RNE.Sort, "RNA", nil)
 
 func FPBin(op string, a, b *Term) *Term  { return app(op, a.Sort, RNE, a, b) }
 func FPCmp(op string, a, b *Term) *Term  { return app(op, SortBool, a, b) }
 func FPNeg(a *Term) *Term                { return app("fp.neg", a.Sort, a) }
 func FPFloor(a *Term) *Term              { return app("fp.roundToIntegral", a.Sort, RTN, a) }
+func FPRoundTo(mode, a *Term) *Term     { return app("fp.roundToIntegral", a.Sort, mode, a) }
 func FPIsNaN(a *Term) *Term              { return app("fp.isNaN", SortBool, a) }
 func FPIsInf(a *Term) *Term              { return app("fp.isInfinite", SortBool, a) }
 func FPFromBits(a *Term, w int) *Term    { eb, sb := fpIdx(w); return app(fmt.Sprintf("(_ to_fp %d %d)", eb, sb), FPSort(w), a) }
